@@ -173,6 +173,15 @@ def run(chk):
                     else:
                         src += ch
                 cat.append("'" + lit.replace("\\", "\\\\").replace("'", "\\'").replace("\n", "\\n") + "'")
+            elif rng.random() < 0.35:
+                # a constant segment: the compiler may evaluate it, string() must still be what is applied
+                lit = rng.choice(["1", "-7", "3u", "1.5", "'s'", "b'ab'", "b'\\xff'", "true", "false", "null", "[1, 2]", "{'a': 1}",
+                                  "1 + 2", "'a' + 'b'", "duration('90s')", "timestamp(0)", "timestamp('2024-01-02T03:04:05Z')",
+                                  "duration(3600)", "int", "type(1)", "1 / 0", "[1][0]", "size('abc')", "double(2)", "bytes('hé')"])
+                if q in lit:
+                    lit = lit.replace("'", '"') if q == "'" else lit.replace('"', "'")
+                src += "{ " + lit + " }"
+                cat.append("string(%s)" % lit)
             else:
                 e = rng.choice(fvals)[0]
                 form = rng.choice(["{%s}", "{ %s }", "{%s + %s}" if e.startswith(("i", "u", "s", "d")) and e not in ("im", "um") else "{%s}"])
